@@ -181,6 +181,29 @@ def nested_object_handlers(chk):
             chk.violation("handler of %s inside a nested object is accepted but nothing is connected to the signal: %s" % (sig, body), {"qml": reqs[n]["src"], "header": r.get("header")})
 
 
+def unresolvable_overloads(chk):
+    """a handler on a signal NAME some of whose declarations mention a type the type map does not know: which declaration the handler means cannot be
+    decided (true overload or default-argument chain?), so it is rejected -- never wired to whatever happens to resolve"""
+    import os
+    from vlib import MOCKQT
+    x = os.path.join(MOCKQT, "verif_x_metatypes.json")
+    cases = [("onMixed: function(s: QString) { a.actText(s) }", False), ("onMixed: { a.poke() }", False), ("onFinishedD: function(n: int) { a.act(n) }", False), ("onFinishedD: { a.poke() }", False),
+             ("onAllUnknown: { a.poke() }", False), ("onThree: function(n: int) { a.act(n) }", False), ("onPlainOk: function(n: int) { a.act(n) }", True), ("onPlainOk: { a.poke() }", True)]
+    reqs = [{"id": "o%d" % n, "src": P.HEAD + "  TOvl { id: o\n    %s\n  }\n}\n" % text, "type_name": "Doc", "modes": ["generate"]} for n, (text, ok) in enumerate(cases)]
+    res = translate(reqs, metatypes=[VERIF_METATYPES, x])
+    for q, (text, ok) in zip(reqs, cases):
+        run_ = res[q["id"]]["generate"]
+        chk.count({"unresolvable_overloads": text}, nontrivial=True)
+        if run_.get("panic"):
+            continue
+        acc = P.is_accepted(run_)
+        if ok and not acc:
+            raise ToolError("control handler `%s` is not accepted: %s" % (text, [d["msg"] for d in run_.get("diags", [])][:2]))
+        if not ok and acc:
+            chk.violation("handler `%s` on a signal name with a declaration of unknown type is accepted: %s" % (text, re.findall(r"QOverload<[^>]*>::of\(&TOvl::\w+\)|&TOvl::\w+", run_.get("header") or "")[:2]),
+                          {"qml": q["src"], "header": run_.get("header")})
+
+
 def cli_regeneration(chk):
     """the handler code on disk follows the source: generate, edit only the statements of a handler (the form stays byte-identical), generate again in place --
     the support header must be the one the library produces for the edited source"""
@@ -306,6 +329,7 @@ def run(chk):
                     break
         chk.cov["traces_validated_against_impl"] += 1
     rejection_clause(chk)
+    unresolvable_overloads(chk)
     nested_object_handlers(chk)
     cli_regeneration(chk)
     for p in acc[:3]:
